@@ -219,13 +219,13 @@ def check_C16(tier):
                     continue
                 sel.append((e, m))
         n_edges += len(sel)
-        for (e, m) in sel:
-            run._distinct.add((kind, val.canon(e["pre"]), val.canon(e["lab"]), m))
         per = None if tier == "thorough" else 700
         for spec in env.specs(kind="d"):
             js = [(e, m, 0) for (e, m) in sel]
             if per and len(js) > per:
                 js = rnd.sample(js, per)
+            for (e, m, _v) in js:      # distinct = distinct executed (state, operation, mode) cases
+                run._distinct.add((kind, val.canon(e["pre"]), val.canon(e["lab"]), m))
             jobs_by_spec.setdefault(spec.name, []).extend(js)
     jobs = []
     for name, js in jobs_by_spec.items():
@@ -233,6 +233,8 @@ def check_C16(tier):
             jobs.append((name, ch))
     rnd.shuffle(jobs)
     total = 0
+    for j in jobs[:3]:
+        run.sample({"class": j[0], "pre": val.to_py(j[1][0][0]["pre"]), "operation": j[1][0][0]["lab"], "mode": j[1][0][1]})
     for out in common.pmap(_alias_job, jobs):
         for v in out:
             if v["aspect"] == "harness":
@@ -368,17 +370,20 @@ def check_C12(tier):
         edges = chk_pyops.export_edges(run, kind, "json", "thorough", f"MC_PyOps kind={kind} tier=thorough (C12)")
         edges = [e for e in edges if e["lab"]["op"] in STORE_OPS and any(o["ret"]["t"] != "!" for o in e["outs"])
                  and not any(o["ret"].get("e") == "Rejected" for o in e["outs"])]
-        for e in edges:
-            run._distinct.add((kind, val.canon(e["pre"]), val.canon(e["lab"])))
         per = 400 if tier == "quick" else 4000
         for position in seq.POSITIONS:
             rk = seq.root_kind(position, kind)
             for spec in env.specs(kind=rk):
                 js = [(position, e, rnd.randrange(realize.n_variants(kind, e["lab"])), rnd.randrange(len(POOLS)))
                       for e in (rnd.sample(edges, per) if len(edges) > per else edges)]
+                for (_p, e, _v, _pl) in js:
+                    run._distinct.add((kind, val.canon(e["pre"]), val.canon(e["lab"])))
                 for ch in common.chunks(js, 2):
                     jobs.append((spec.name, ch))
     rnd.shuffle(jobs)
+    for j in jobs[:3]:
+        run.sample({"class": j[0], "position": j[1][0][0], "pre": val.to_py(j[1][0][1]["pre"]), "operation": j[1][0][1]["lab"],
+                    "pool": j[1][0][3]})
     for out in common.pmap(_rt_job, jobs):
         for v in out:
             if v["aspect"] == "harness":
@@ -597,8 +602,6 @@ def check_C11(tier):
         for kind in ("d", "l"):
             edges = chk_pyops.export_edges(run, kind, fam, "forbid", f"MC_PyOps kind={kind} fam={fam} tier=forbid")
             edges = [e for e in edges if any(o["ret"].get("e") == "Rejected" for o in e["outs"])]
-            for e in edges:
-                run._distinct.add((fam, kind, val.canon(e["pre"]), val.canon(e["lab"])))
             per = 500 if tier == "quick" else None
             for position in seq.POSITIONS:
                 rk = seq.root_kind(position, kind)
@@ -607,9 +610,14 @@ def check_C11(tier):
                         continue
                     es = rnd.sample(edges, per) if per and len(edges) > per else edges
                     js = [(position, e, rnd.randrange(realize.n_variants(kind, e["lab"]))) for e in es]
+                    for (_p, e, _v) in js:
+                        run._distinct.add((fam, kind, val.canon(e["pre"]), val.canon(e["lab"])))
                     for ch in common.chunks(js, 2):
                         jobs.append((spec.name, fam, ch))
     rnd.shuffle(jobs)
+    for j in jobs[:3]:
+        run.sample({"class": j[0], "family": j[1], "position": j[2][0][0], "pre": val.to_py(j[2][0][1]["pre"]),
+                    "operation": j[2][0][1]["lab"], "spec_outcomes": j[2][0][1]["outs"][:2]})
     for out in common.pmap(_c11_job, jobs):
         for v in out:
             if v["aspect"] == "harness":
